@@ -185,7 +185,8 @@ def _tam_cases(draw):
     ts = draw(st.lists(st.one_of(st.sampled_from([0.0, 0.25, 0.5, 1.0, 1 / 3, -0.2, 1.7]),
                                  st.floats(min_value=0, max_value=1)), min_size=T, max_size=T))
     return dict(s=s, sc=sc, ec=ec, pk=pk, points=points, t=ts, scalar=scalar,
-                metric=draw(st.sampled_from(METRICS)))
+                metric=draw(st.sampled_from(METRICS)),
+                then_shift=draw(st.sampled_from([0, 0, 1, -2, 3])))
 
 
 def check_tam(case):
@@ -196,13 +197,31 @@ def check_tam(case):
     dt = int if s["mode"] == "int" else float
     o = Scores(np.asarray(s["pos"], dtype=dt), np.asarray(s["neg"], dtype=dt),
                nb_easy_pos=s["ep"], nb_easy_neg=s["en"], score_class=case["sc"], equal_class=case["ec"])
+    out = _tam_compare(case, o, s["pos"], s["neg"], "")
+    if case.get("then_shift") and out["labels"] != ["rejected<2values"]:
+        # the repository's notebooks re-assign a class's scores on an existing object
+        # (`scores.neg = scores.neg - 0.15`); the object must then answer for the new scores
+        o.threshold_at_topr(0.5)
+        sh = case["then_shift"]
+        o.neg = o.neg + dt(sh)
+        out2 = _tam_compare(case, o, s["pos"], [v + sh for v in s["neg"]], "after o.neg = o.neg + shift: ")
+        out["labels"] = out["labels"] + ["reassigned-scores"]
+        out["nontrivial"] = out["nontrivial"] or out2["nontrivial"]
+    return out
+
+
+def _tam_compare(case, o, pos, neg, tag):
+    from score_analysis import Scores
+    from score_analysis.utils import invert_pl_function
+
+    s = dict(case["s"], pos=pos, neg=neg)
     metric = _metric(case["metric"])
     allv = sorted(map(float, s["pos"] + s["neg"]))
     t_in = float(case["t"][0]) if case["scalar"] else np.asarray(case["t"], dtype=float)
     pk = case["pk"]
     pts_arg = None if pk == "none" else (case["points"] if pk == "int" else np.asarray(case["points"], dtype=float))
     degenerate = (pk == "none" and len(allv) < 2) or (pk == "int" and allv[0] >= allv[-1])
-    ctx = f"metric={case['metric']} points={case['points']} config={case['sc']}/{case['ec']} pos={s['pos']} neg={s['neg']}"
+    ctx = f"{tag}metric={case['metric']} points={case['points']} config={case['sc']}/{case['ec']} pos={s['pos']} neg={s['neg']}"
     try:
         got = o.threshold_at_metric(t_in, metric, pts_arg)
     except ValueError:
@@ -235,6 +254,52 @@ def check_tam(case):
     return dict(nontrivial=any(stats.values()), labels=labels)
 
 
+# ------------------------------------------------------------------ large inputs
+def _large_cases(tier):
+    """Many samples x many targets (the implementation broadcasts an (N, T) array)."""
+    shapes = [(30001, 400), (5000, 900), (1_200_000, 3), (200, 30000)]
+    if tier != "quick":
+        shapes += [(60001, 300), (2_100_000, 5), (1000, 9000), (300_000, 40), (12, 600_000)]
+    for k, (n, t) in enumerate(shapes):
+        yield dict(n=n, t=t, seed=100 + k)
+
+
+def check_large(case):
+    from score_analysis.utils import invert_pl_function
+
+    rs = np.random.RandomState(case["seed"])
+    n, T = case["n"], case["t"]
+    x = np.arange(n, dtype=float)
+    y = np.cumsum(rs.randint(-1, 2, size=n)).astype(float)  # integer random walk
+    lo, hi = y.min(), y.max()
+    # half-integer targets: only transversal crossings, never touches; some targets outside the range
+    ts = rs.randint(int(lo) - 3, int(hi) + 3, size=T).astype(float) + 0.5
+    res = invert_pl_function(x, y, ts)
+    require(isinstance(res, list) and len(res) == T, "pl:one-entry-per-target", f"N={n} T={T}: {len(res)} entries")
+    d0, d1 = y[:-1], y[1:]
+    multi = fallback = 0
+    for j in range(T):
+        t = ts[j]
+        sol = np.asarray(res[j], dtype=float).ravel()
+        cross = np.nonzero((d0 - t) * (d1 - t) < 0)[0]
+        ctx = f"N={n} T={T} seed={case['seed']} target #{j} = {t!r}"
+        if len(cross):
+            require(len(sol) == len(cross), "pl:crossing-missed",
+                    lambda: f"{ctx}: {len(cross)} transversal crossings, {len(sol)} solutions reported")
+            exp = x[cross] + (t - d0[cross]) / (d1[cross] - d0[cross])
+            require(bool(np.all(np.abs(sol - exp) <= 1e-9 * n)), "pl:not-a-solution",
+                    lambda: f"{ctx}: first reported {sol[:3].tolist()} expected {exp[:3].tolist()}")
+            require(bool(np.all(np.diff(sol) > 0)), "pl:not-increasing", ctx)
+            multi += len(sol) >= 2
+        else:
+            require(len(sol) == 1, "pl:fallback-not-single", f"{ctx}: {len(sol)} points")
+            dist = np.abs(y - t)
+            i = int(round(float(sol[0])))
+            require(0 <= i < n and x[i] == sol[0] and dist[i] == dist.min(), "pl:fallback-not-closest", ctx)
+            fallback += 1
+    return dict(nontrivial=multi > 0 and fallback > 0, labels=[f"N*T>={(n * T) // 10**6}e6"])
+
+
 PROP = Prop(
     id="C17",
     rule=("invert_pl_function: Hypothesis, n=1..9 samples, x non-decreasing (duplicates carry equal "
@@ -253,6 +318,8 @@ PROP = Prop(
     clauses=[
         Clause("invert_pl", check_pl, strategy=_pl_cases(), quick=1500, thorough=32000, quick_shards=3, fuzz=40000,
                min_nontrivial=300, doc="solutions of the interpolant, ordering, fallback"),
+        Clause("large_inputs", check_large, kind="enum", cases=_large_cases, quick_shards=4, shards=9,
+               min_nontrivial=2, doc="6e6-1.2e7 (sample, target) pairs per call, tall and wide"),
         Clause("threshold_at_metric", check_tam, strategy=_tam_cases(), quick=400, thorough=8000,
                quick_shards=3, min_nontrivial=100, doc="= inversion on the documented evaluation points"),
     ],
